@@ -8,7 +8,7 @@ git -C /repo worktree add -q --detach $WT HEAD || exit 2
 git -C $WT apply $PATCH || { echo "$PATCH: PATCH-FAILED"; git -C /repo worktree remove --force $WT; exit 1; }
 hits=""
 for p in C01 C02 C03 C04 C05 C06 C07 C08 C09 C10 C11 C12 C13 C14 C15 C16 C17 C18 C19 C20; do
-  out=$(/verif/bin/gopkgcheck -prop $p -repo $WT -verif /verif -no-evidence 2>&1); rc=$?
+  out=$(${BIN:-/verif/bin/gopkgcheck} -prop $p -repo $WT -verif /verif -no-evidence 2>&1); rc=$?
   if [ $rc -ne 0 ]; then
     hits="$hits $p(rc=$rc)"
     printf '%s\n' "$out" | grep "^$p/\|ANALYSIS-ERROR\|panic" | head -4 | cut -c1-420 | sed "s#^#    #" > /tmp/bn_$ID.$p.txt
